@@ -238,26 +238,31 @@ pub fn c15(out: &mut dyn Write, tier: &str, _rng: &mut Rng, st: &mut Stats) {
                             SymbolicBDD::BinaryOp(BinaryOperator::And, l, r) => {
                                 cnt += 1;
                                 if let SymbolicBDD::CountableConst(op, fs, k) = l.as_ref() {
-                                    let cells: Vec<usize> = fs.iter().filter_map(|f| if let SymbolicBDD::Var(v) = f { rename(v.name.as_str()) } else { None }).collect();
+                                    let listed: Vec<usize> = fs.iter().filter_map(|f| if let SymbolicBDD::Var(v) = f { rename(v.name.as_str()) } else { None }).collect();
                                     // `<= 1`, `= 1` and `< 2` say the same about two cells
                                     let at_most_one = matches!((op, *k), (CountableOperator::AtMost, 1) | (CountableOperator::Exactly, 1) | (CountableOperator::LessThan, 2));
-                                    if cells.len() != fs.len() || !at_most_one { ok = false; }
-                                    for c in &cells { maxv = maxv.max(*c); }
-                                    // a row, a column or a diagonal: constant step between consecutive cells
-                                    let steps: Vec<i64> = cells.windows(2).map(|w| w[1] as i64 - w[0] as i64).collect();
-                                    let st0 = steps.first().copied().unwrap_or(1);
-                                    let legal = [1i64, n as i64, n as i64 + 1, n as i64 - 1, -(n as i64 - 1), -(n as i64) + 1];
-                                    if !steps.iter().all(|s| *s == st0) || !(legal.contains(&st0) || cells.len() <= 1) { ok = false; }
-                                    if !matches!(op, CountableOperator::AtMost | CountableOperator::Exactly | CountableOperator::LessThan) { ok = false; }
+                                    // a list of something else than cells, or another kind of count: a shape this summary does not
+                                    // judge (a difference from the model, `ok`), not by itself a constraint that fails
+                                    if listed.len() != fs.len() || !at_most_one { ok = false; cur = r; continue; }
+                                    for c in &listed { maxv = maxv.max(*c); }
+                                    // the order in which a list names its cells says nothing about the placements it allows
+                                    let mut cells = listed.clone();
+                                    cells.sort();
                                     // the line this list lies on, and whether it is the whole of it
                                     let ni = n as i64;
                                     let on = |r: i64, c: i64| r >= 0 && c >= 0 && r < ni && c < ni;
-                                    if let (Some(first), Some(last)) = (cells.first(), cells.last()) {
-                                        let (r0, c0) = ((*first / n) as i64, (*first % n) as i64);
-                                        let (r1, c1) = ((*last / n) as i64, (*last % n) as i64);
+                                    if let (Some(first), Some(last)) = (cells.first().copied(), cells.last().copied()) {
+                                        let (r0, c0) = ((first / n) as i64, (first % n) as i64);
+                                        let (r1, c1) = ((last / n) as i64, (last % n) as i64);
                                         let (dr, dc) = if cells.len() == 1 { (0, 0) } else { ((r1 - r0).signum(), (c1 - c0).signum()) };
-                                        let geometric = cells.iter().enumerate().all(|(k, c)| on(r0 + dr * k as i64, c0 + dc * k as i64) && *c as i64 == (r0 + dr * k as i64) * ni + c0 + dc * k as i64);
-                                        if !geometric || cells.iter().any(|c| *c >= n * n) { sound = false; }
+                                        // all on one line (row, column or diagonal), wherever on it; contiguous: no cell of the line between
+                                        // the first and the last is left out
+                                        cells.dedup();
+                                        let rc: Vec<(i64, i64)> = cells.iter().map(|c| ((*c / n) as i64, (*c % n) as i64)).collect();
+                                        let one_line = rc.iter().all(|(r, _)| *r == r0) || rc.iter().all(|(_, c)| *c == c0)
+                                            || rc.iter().all(|(r, c)| r - c == r0 - c0) || rc.iter().all(|(r, c)| r + c == r0 + c0);
+                                        if !one_line || cells.iter().any(|c| *c >= n * n) { sound = false; }
+                                        let geometric = one_line && cells.iter().enumerate().all(|(k, c)| on(r0 + dr * k as i64, c0 + dc * k as i64) && *c as i64 == (r0 + dr * k as i64) * ni + c0 + dc * k as i64);
                                         let whole = cells.len() >= 2 && geometric && !on(r0 - dr, c0 - dc) && !on(r1 + dr, c1 + dc);
                                         let exactly = matches!(op, CountableOperator::Exactly);
                                         if exactly && !(whole && (dr == 0 || dc == 0)) && !(n == 1) { sound = false; }
